@@ -7,6 +7,8 @@ import Dawn.Model.Config
     load      <hex text>                         → `ok <name> <version> <ignore> <reqs>` | `err badVersion` | `outside`
     cleanpath <hex>                              → `<hex>`
     semver    <hex>                              → `0` | `1`     (IsValid && Canonical(v) == v)
+    valid     <name> <version> <ignore> <reqs>   → `0` | `1`     (inside C19's quantifier: `Config.valid`, requirements in key order)
+    rewrite   <hex text> <reqs>                  → `ok <hex of the file get/tidy write>` | `err badVersion` | `outside`
 
   strings are hex, `-` is the empty string; `<ignore>` is `.` or `h,h,…`; `<reqs>` is `.` or `k:p:v,k:p:v,…`. -/
 open Dawn.Config Driver
@@ -48,6 +50,15 @@ def step (line : String) : String :=
       | .error .badVersion => "err badVersion"
       | .error .outside => "outside"
     | none => "bad-input"
+  | ["valid", n, v, ig, rq] => match parseCfg n v ig rq with
+    | some c => if ({ c with reqs := sortReqs c.reqs } : Config).valid then "1" else "0"
+    | none => "bad-input"
+  | ["rewrite", t, rq] => match unhexB t, parseReqs rq with
+    | some t, some rq => match rewriteFile t rq with
+      | .ok b => "ok " ++ hexBytes b
+      | .error .badVersion => "err badVersion"
+      | .error .outside => "outside"
+    | _, _ => "bad-input"
   | ["cleanpath", p] => match unhexB p with
     | some p => hexBytes (cleanPath p)
     | none => "bad-input"
